@@ -197,3 +197,33 @@ func C11_GenRelocate() {
 	vf.Assert(sameOutcome(base, other), "gen: "+body+" computes the same "+what)
 	vf.Reach("genrelocate")
 }
+
+// C11_GenRec: the recursion family (gen2.go) with f as a global vs f as a
+// local of a function body, inside a module function, and with the recursive
+// call wrapped in an immediately-invoked function literal (which takes it out
+// of tail position): same results, same values reported by the closures that
+// escaped each activation.
+func C11_GenRec() {
+	pre := vf.Choice("pre", len(recPre))
+	step := vf.Choice("step", len(recStep))
+	a, b := vf.Int64("a"), vf.Int64("b")
+	name := recPreNames[pre] + "/" + recStepNames[step]
+	base := runVariant(recSrc(pre, step, 0), nil, a, b, false)
+	var other outcome
+	what := ""
+	switch vf.Choice("variant", 3) {
+	case 0:
+		what = "with the function local to a function body"
+		other = runVariant(recSrc(pre, step, 1), nil, a, b, false)
+	case 1:
+		what = "inside a module function"
+		mods := tengo.NewModuleMap()
+		mods.AddSourceModule("m", []byte("export func(a, b) { "+recSrc(pre, step, 0)+"; return out }"))
+		other = runVariant(`out := import("m")(a, b)`, mods, a, b, false)
+	default:
+		what = "with the recursive call wrapped in an immediately-invoked function literal"
+		other = runVariant(recSrcD(pre, step, 0, recCallWrapped, "a & 3"), nil, a, b, false)
+	}
+	vf.Assert(sameOutcome(base, other), "genrec "+name+" computes the same "+what)
+	vf.Reach("genrec")
+}
